@@ -188,6 +188,13 @@ def handle (j : Json) : Except String Json := do
     | none => pure (Json.mkObj [("err", Json.str "ValueError")])
     | some (c0, m') => pure (Json.mkObj [("col0", J.ofNat c0), ("ncol", J.ofNat m'),
         ("nzero", J.ofNat (countN M (zeroCol N sc (fn2 w))))])
+  | "contig" =>
+    -- `find_contiguous(x)` alone: `good[k]` is the truth value of `x[k]`
+    let good ← J.array J.bool (← J.fld j "good")
+    match findContiguous good.size (fun k => good[k]!) with
+    | none => pure (Json.mkObj [("err", Json.str "ValueError")])
+    | some (c0, m') => pure (Json.mkObj [("col0", J.ofNat c0), ("ncol", J.ofNat m'),
+        ("runs", J.ofArray (fun (r : Nat × Nat) => Json.arr #[J.ofNat r.1, J.ofNat r.2]) (runsOf good.size (fun k => good[k]!)).toArray)])
   | "hmf_cols" =>
     let N ← J.fNat j "N"
     let M ← J.fNat j "M"
@@ -199,6 +206,30 @@ def handle (j : Json) : Except String Json := do
     let nn ← J.fBool j "nonneg"
     let eps ← J.fOpt J.float j "eps"
     match iterateCols Float.sqrt solveGE jacobi N M K nIter 128 (fn2 s) (fn2 w) (fn2 g0) nn eps with
+    | .error e => pure (Json.mkObj [("err", Json.str e)])
+    | .ok r => pure (Json.mkObj [("a", matJ r.a), ("g", matJ r.g), ("col0", J.ofNat r.col0), ("ncol", J.ofNat r.ncol),
+        ("nzero", J.ofNat r.nzero)])
+  | "pca_vec" =>
+    let npix ← J.fNat j "npix"
+    let ivarDim ← J.fNat j "ivar_dim"
+    let flux ← fVec j "flux"
+    let ivar ← fMat j "ivar"
+    match pcaSolveVec npix ivarDim (fn1 flux) (fn2 ivar) with
+    | .error e => pure (Json.mkObj [("err", Json.str e)])
+    | .ok (.single f) => pure (Json.mkObj [("single", vecJ f)])
+    | .ok (.full _) => pure (Json.mkObj [("err", Json.str "unreachable")])
+  | "hmf_cols_kg" =>
+    let N ← J.fNat j "N"
+    let M ← J.fNat j "M"
+    let K ← J.fNat j "K"
+    let Kg ← J.fNat j "Kg"
+    let nIter ← J.fNat j "n_iter"
+    let s ← fMat j "s"
+    let w ← fMat j "w"
+    let g0 ← fMat j "g0"
+    let nn ← J.fBool j "nonneg"
+    let eps ← J.fOpt J.float j "eps"
+    match iterateColsKg Float.sqrt solveGE jacobi N M K Kg nIter 128 (fn2 s) (fn2 w) (fn2 g0) nn eps with
     | .error e => pure (Json.mkObj [("err", Json.str e)])
     | .ok r => pure (Json.mkObj [("a", matJ r.a), ("g", matJ r.g), ("col0", J.ofNat r.col0), ("ncol", J.ofNat r.ncol),
         ("nzero", J.ofNat r.nzero)])
